@@ -27,7 +27,9 @@
 //   A matched now if late, A's ACKNACK (base a1 in a0..=n+1, every request set within {a1..=n+1}), the
 //   repair step repeated as the timed event would (handle_repair_data_send while repair_mode), a
 //   HEARTBEAT tick.  One fixed family of scenarios runs the repair through the real timer
-//   (handle_timed_event).  Acknowledgment bases never move backwards.
+//   (handle_timed_event).  Acknowledgment bases never move backwards.  xc_repair_source_timestamps: the
+//   same with every sample written with no source timestamp / the same one as the previous stamped write /
+//   one a second earlier (all patterns), n in 1..=3, History KeepLast(1) / KeepAll, B absent.
 //   A reader matched late by a non-Volatile writer that requests a still retrievable sample written for
 //   the other reader is part of the sweep (former finding F11, repaired by 2d0b53a).
 #[cfg(test)]
@@ -85,6 +87,7 @@ mod verif_xc_writer_repair {
     a_base: i64,      // base of A's requesting ACKNACK
     a_req: Vec<i64>,  // numbers it requests
     timed: bool,      // run the repair through the real timer
+    stamps: Vec<St>,  // source timestamps of the writes (empty: none)
   }
   impl Case {
     fn n(&self) -> i64 {
@@ -242,12 +245,57 @@ mod verif_xc_writer_repair {
     v.extend(value(i));
     v
   }
-  fn options(to: To) -> WriteOptions {
-    match to {
-      To::All => WriteOptions::default(),
-      To::A => WriteOptionsBuilder::new().to_single_reader(reader_guid(A)).build(),
-      To::B => WriteOptionsBuilder::new().to_single_reader(reader_guid(B)).build(),
+  // the application-supplied source timestamp of a write: none, the same as the previous stamped write's
+  // (the first one: a fixed instant), or one second earlier than that
+  #[derive(Clone, Copy, Debug, PartialEq, Eq)]
+  enum St {
+    NoStamp,
+    Same,
+    Earlier,
+  }
+  // stamps[i-1] describes sample i; samples beyond the list carry no source timestamp
+  fn source_timestamp(stamps: &[St], i: i64) -> Option<Timestamp> {
+    let mut cur: u64 = 1_000_000u64 << 32; // Timestamp ticks: 10^6 s after the epoch
+    let mut out = None;
+    for st in stamps.iter().take(i as usize) {
+      out = match st {
+        St::NoStamp => None,
+        St::Same => Some(cur),
+        St::Earlier => {
+          cur -= 1u64 << 32;
+          Some(cur)
+        }
+      };
     }
+    if (i as usize) > stamps.len() { None } else { out.map(Timestamp::from_ticks) }
+  }
+  fn stamp_patterns(len: usize) -> Vec<Vec<St>> {
+    let mut v: Vec<Vec<St>> = vec![vec![]];
+    for _ in 0..len {
+      v = v
+        .into_iter()
+        .flat_map(|p| {
+          [St::NoStamp, St::Same, St::Earlier].into_iter().map(move |s| {
+            let mut q = p.clone();
+            q.push(s);
+            q
+          })
+        })
+        .collect();
+    }
+    v
+  }
+  fn options(c: &Case, i: i64) -> WriteOptions {
+    let mut b = WriteOptionsBuilder::new();
+    match c.to[(i - 1) as usize] {
+      To::All => {}
+      To::A => b = b.to_single_reader(reader_guid(A)),
+      To::B => b = b.to_single_reader(reader_guid(B)),
+    }
+    if let Some(ts) = source_timestamp(&c.stamps, i) {
+      b = b.source_timestamp(ts);
+    }
+    b.build()
   }
   fn acknack(z: usize, base: i64, req: &[i64], count: i32) -> AckSubmessage {
     let mut set = SequenceNumberSet::new_empty(sn(base));
@@ -283,7 +331,7 @@ mod verif_xc_writer_repair {
   }
 
   fn retrievable(w: &Writer, s: i64) -> bool {
-    w.history_buffer.get_by_sn(sn(s)).is_some()
+    w.history_buffer.get_by_sn(sn(s)).map_or(false, |cc| cc.sequence_number == sn(s))
   }
 
   // every datagram, whenever and wherever it arrives, against the oracle
@@ -416,29 +464,33 @@ mod verif_xc_writer_repair {
       match_reader(h, &mut w, &mut m, A, true);
     }
     // write, in push mode
-    let mut last_ts = Timestamp::ZERO;
+    let mut last_wall = Timestamp::ZERO;
     for i in 1..=n {
-      while Timestamp::now() <= last_ts {
-        std::hint::spin_loop(); // assumption valid.hist.clock: history keys (clock readings) strictly increase
+      // assumption valid.hist.clock: the wall clock readings the writer keys its history by strictly increase;
+      // wait for a tick and bracket the write with two readings
+      let mut before = Timestamp::now();
+      while before <= last_wall {
+        std::hint::spin_loop();
+        before = Timestamp::now();
       }
       let sent = cmd.send(WriterCommand::DDSData {
         ddsdata: DDSData::new(SerializedPayload::new(RepresentationIdentifier::CDR_LE, value(i))),
-        write_options: options(c.to[(i - 1) as usize]),
+        write_options: options(c, i),
         sequence_number: sn(i),
       });
       assert!(sent.is_ok(), "test harness: command channel closed");
       w.process_writer_command();
-      last_ts = Timestamp::now();
+      let after = Timestamp::now();
+      last_wall = std::cmp::max(after, before);
       m.written = i;
-      let instants: Vec<Timestamp> = w.history_buffer.sequence_number_to_instant.values().copied().collect();
-      if instants.windows(2).any(|p| p[0] >= p[1]) {
-        return Ok(false); // two samples got the same clock reading / the clock stepped back
+      if after < before {
+        return Ok(false); // the wall clock was seen stepping back
       }
       for s in 1..=i {
         assert!(
           retrievable(&w, s),
-          "XC-WITNESS label=hist.insert {:?} step=write: sample {} of {} written so far is not retrievable although nothing was cleaned yet",
-          c, s, i
+          "XC-WITNESS label=hist.insert {:?} step=write: after writing {} samples get_by_sn({}) returns {:?} instead of sample {}, although nothing was cleaned yet",
+          c, i, s, w.history_buffer.get_by_sn(sn(s)).map(|cc| cc.sequence_number), s
         );
       }
       collect(h, c, "write", &w, &m)?;
@@ -580,7 +632,7 @@ mod verif_xc_writer_repair {
               for a_ack0 in ack0s {
                 for a_base in a_ack0..=n + 1 {
                   for a_req in subsets(a_base, n + 1) {
-                    let c = Case { history, max_samples, volatile, b, to: to.clone(), a_late, a_ack0, a_base, a_req, timed: false };
+                    let c = Case { history, max_samples, volatile, b, to: to.clone(), a_late, a_ack0, a_base, a_req, timed: false, stamps: vec![] };
                     run(h, &c, st)?;
                   }
                 }
@@ -637,6 +689,38 @@ mod verif_xc_writer_repair {
     sweep_test(Hist::KeepAll, Some(-1), "KeepAll, max_samples unlimited");
   }
 
+  // application-supplied source timestamps must not matter for what is retained, advertised and answered
+  #[test]
+  fn xc_repair_source_timestamps() {
+    let mut st = Stats::default();
+    let r = Harness::new().and_then(|mut h| {
+      for history in [Hist::KeepLast(1), Hist::KeepAll] {
+        for n in 1..=3i64 {
+          for stamps in stamp_patterns(n as usize) {
+            for (a_late, a_ack0) in [(false, 1), (false, n), (true, 1)] {
+              for a_req in subsets(a_ack0, n) {
+                let c = Case {
+                  history, max_samples: None, volatile: false, b: BKind::Absent, to: vec![To::All; n as usize],
+                  a_late, a_ack0, a_base: a_ack0, a_req, timed: false, stamps: stamps.clone(),
+                };
+                run(&mut h, &c, &mut st)?;
+              }
+            }
+          }
+        }
+      }
+      Ok(())
+    });
+    match r {
+      Err(Env(e)) => eprintln!("XC-NOTE source timestamps: environment failure, nothing checked: {}", e),
+      Ok(()) => assert!(
+        st.cases > 800 && st.answered_by_data > 400 && st.heartbeats > 800,
+        "vacuity guard (source timestamps): {} scenarios, {} requests answered by DATA, {} HEARTBEATs",
+        st.cases, st.answered_by_data, st.heartbeats
+      ),
+    }
+  }
+
   // the same oracle with the repair driven by the real timer (nack_response_delay 0, tick 1 ms)
   #[test]
   fn xc_repair_timed_event_path() {
@@ -651,7 +735,7 @@ mod verif_xc_writer_repair {
         (Hist::KeepAll, vec![To::All], false, 1, vec![]),
       ] {
         for b in [BKind::Absent, BKind::Reliable { ack: to.len() as i64 + 1 }] {
-          let c = Case { history, max_samples: None, volatile: false, b, to: to.clone(), a_late, a_ack0: 1, a_base, a_req: a_req.clone(), timed: true };
+          let c = Case { history, max_samples: None, volatile: false, b, to: to.clone(), a_late, a_ack0: 1, a_base, a_req: a_req.clone(), timed: true, stamps: vec![] };
           run(&mut h, &c, &mut st)?;
         }
       }
